@@ -35,10 +35,9 @@ def feq(a, b):
 def run(ctx: core.Ctx):
     fl = core.import_fuzzylite()
     G = 16 if ctx.quick else 32
-    cfg = write_cfg("MC_Norms", f"SPECIFICATION Spec\nCONSTANTS G = {G}\n  Emit = FALSE\n" + "".join(f"INVARIANT {i}\n" for i in INVS) + "CHECK_DEADLOCK FALSE\n")
-    ctx.expect_holds(ctx.tlc("MC_Norms", cfg, workers=16), "MC_Norms")
-    cfg = write_cfg("Gen_Norms", f"SPECIFICATION Spec\nCONSTANTS G = {G}\n  Emit = TRUE\nINVARIANT EmitInv\nCHECK_DEADLOCK FALSE\n")
-    g = ctx.tlc("MC_Norms", cfg, workers=1)
+    cfg = write_cfg("MC_Norms", f"SPECIFICATION Spec\nCONSTANTS G = {G}\n  Emit = TRUE\n" + "".join(f"INVARIANT {i}\n" for i in INVS) + "INVARIANT EmitInv\nCHECK_DEADLOCK FALSE\n")
+    g = ctx.tlc("MC_Norms", cfg, workers=16)
+    ctx.expect_holds(g, "MC_Norms")
     if len(g.emitted) != 16 * (G + 1) ** 2:
         raise MachineryError(f"expected {16 * (G + 1) ** 2} table rows, got {len(g.emitted)}")
     objs = {n: getattr(fl, n)() for n in TN + SN}
